@@ -589,6 +589,10 @@ func (c *compiler) arrayOperator(l interface{}, r interface{}, op string) (inter
 	var err error
 	switch op {
 	case "+":
+		if reflect.TypeOf(l).Kind() != reflect.Slice {
+			return nil, fmt.Errorf("cannot append to %T, it is not a slice", l)
+		}
+
 		elemType := reflect.TypeOf(l).Elem()
 		if elemType.Kind() != reflect.Interface {
 			t := reflect.ValueOf(r).Type()
@@ -731,6 +735,10 @@ func (c *compiler) evalCallExpression(node *ast.CallExpression) (interface{}, er
 		}
 
 		rc := reflect.ValueOf(c)
+		if !rc.IsValid() || (rc.Kind() == reflect.Ptr && rc.IsNil()) {
+			return nil, fmt.Errorf("'%s' is nil, cannot call '%s' on it", node.Callee.String(), node.Function.String())
+		}
+
 		mname := node.Function.String()
 		if i, ok := node.Function.(*ast.Identifier); ok {
 			mname = i.Value
